@@ -215,6 +215,13 @@ def _geotherm(ctx, e2e):
             depth = numpy.round(rg.uniform(0, 2900, npts), 1)
             gpath = os.path.join(wd, "geotherm.txt")
             cols = [("P", gp), ("D", depth), ("T", gt)] if i % 2 else [("T", gt), ("P", gp)]
+            if (i // 3) % 2:
+                # a geotherm file may carry further columns, some named almost like the coordinates (T_hot, T(C), P_lith ...): they
+                # are passed through like D and never used as coordinates, wherever they stand
+                extra_c = [("T_hot", numpy.round(gt + rg.uniform(150, 400, npts), 2)), ("T(C)", numpy.round(gt - 273.15, 2)),
+                           ("P_lith", numpy.round(gp * 1.07 + 0.3, 3)), ("Temp", numpy.round(gt * 0.5, 1)), ("Pv", numpy.round(gp + 5.0, 2))]
+                pick_ = [extra_c[int(j_)] for j_ in rg.permutation(len(extra_c))[: int(rg.integers(1, 4))]]
+                cols = (pick_ + cols) if (i // 6) % 2 else (cols[:1] + pick_ + cols[1:])
             with open(gpath, "w") as fp:
                 fp.write(" ".join(c for c, _ in cols) + "\n")
                 as_int = int_cls != "none"          # integral values written as integer literals (1500, not 1500.0)
